@@ -454,7 +454,8 @@ impl Engine {
             return;
         }
         if let Some((p, c)) = must_fail {
-            self.v(p, c, format!("LiquidStake succeeded although it had to be refused ({}): sender={} mint_to={:?} amount={} N={} L={}", c, sender, mint_to, amount, self.m.n, self.m.l));
+            // the model below follows what was executed, so the run can go on
+            self.vo(p, c, format!("LiquidStake succeeded although it had to be refused ({}): sender={} mint_to={:?} amount={} N={} L={}", c, sender, mint_to, amount, self.m.n, self.m.l));
         }
         if swept_now > 0 {
             self.stats.probe("ownerless_stake_swept");
@@ -531,10 +532,11 @@ impl Engine {
         if l0 > 0 && cmp_prod(n0 + amount, l0, n0, l0 + minted) == std::cmp::Ordering::Less {
             self.v("C04", "stake_no_dilution", format!("redemption rate fell: N {}->{} L {}->{}", n0, n0 + amount, l0, l0 + minted));
         }
-        // round trip: unstaking everything minted right away returns <= paid
-        if let Some(back) = mul_div(n0 + amount, minted, l0 + minted) {
+        // round trip: unstaking right away everything the recipient was handed returns <= paid
+        let handed: u128 = if to_native { lst_pkts.iter().map(|p| p.amount).sum() } else { self.w.st.bank.balance(&target, &lst).saturating_sub(bank_pre.balance(&target, &lst)) };
+        if let Some(back) = mul_div(n0 + amount, handed.max(minted), l0 + minted) {
             if back > amount {
-                self.v("C04", "no_round_trip_profit", format!("stake {} mints {} which immediately redeems for {}", amount, minted, back));
+                self.v("C04", "no_round_trip_profit", format!("stake {} mints {} and hands the recipient {}, which immediately redeems for {}", amount, minted, handed, back));
             }
         }
         if let Some(nu) = &native_user {
@@ -545,6 +547,10 @@ impl Engine {
         self.m.l = l0 + mint;
         self.m.fees += swept_now;
         self.m.swept += swept_now;
+        if swept_now > 0 && self.m.ownerless_from_resume {
+            self.m.swept_known += swept_now;
+        }
+        self.m.ownerless_from_resume = false;
         self.totals_prop = "C04";
     }
 
@@ -830,11 +836,22 @@ impl Engine {
         }
         if !should_be_possible {
             self.v("C07", "recover_only_refundable_same_receiver_denom", format!("recovery succeeded although nothing eligible (eligible={}, receiver={})", sel.len(), target));
+            let sent: Vec<Packet> = res.effects.iter().filter_map(|e| match e { Effect::IbcSend { pkt } => Some(self.w.st.packets[*pkt].clone()), _ => None }).collect();
+            self.v("C02", "recovery_pays_the_right_claim", format!("recovery for {} had nothing eligible but emitted {:?}", target, sent.iter().map(|p| (p.amount, p.denom.clone(), p.receiver.clone())).collect::<Vec<_>>()));
+            if sent.iter().any(|p| p.denom == self.lst) {
+                self.v("C03", "lst_resent_to_the_chosen_recipient", format!("recovery for {} had nothing eligible but re-sent LST {:?}", target, sent.iter().map(|p| (p.amount, p.receiver.clone())).collect::<Vec<_>>()));
+            }
             return;
         }
         let sent: Vec<Packet> = res.effects.iter().filter_map(|e| match e { Effect::IbcSend { pkt } => Some(self.w.st.packets[*pkt].clone()), _ => None }).collect();
         let sum: u128 = sel.iter().map(|p| p.amount).sum();
         if sent.len() != 1 || sent[0].amount != sum || sent[0].receiver != target || sent[0].denom != sel[0].denom {
+            // the refunded value belongs to the receiver it was meant for: paying it elsewhere, or paying more
+            // than was refunded, spends what backs another claim (C02); for LST it is a wrong delivery (C03)
+            self.v("C02", "recovery_pays_the_right_claim", format!("recovery for {} of {:?} emitted {:?}", target, sel.iter().map(|p| (p.seq, p.amount)).collect::<Vec<_>>(), sent.iter().map(|p| (p.amount, p.receiver.clone())).collect::<Vec<_>>()));
+            if sel[0].denom == self.lst || sent.iter().any(|p| p.denom == self.lst) {
+                self.v("C03", "lst_resent_to_the_chosen_recipient", format!("recovery for {} re-sent LST as {:?}", target, sent.iter().map(|p| (p.amount, p.denom.clone(), p.receiver.clone())).collect::<Vec<_>>()));
+            }
             self.v("C07", "recover_resends_exact_sum", format!("recovery of {:?} for {} emitted {:?}", sel.iter().map(|p| (p.seq, p.amount, p.denom.clone())).collect::<Vec<_>>(), target, sent.iter().map(|p| (p.amount, p.denom.clone(), p.receiver.clone())).collect::<Vec<_>>()));
         }
         if sel.len() > 1 {
@@ -951,9 +968,21 @@ impl Engine {
         let nd = self.w.setup.native_denom.clone();
         let ch = self.m.cfg.channel.clone();
         let other_role = if role_native == self.m.cfg.staker { self.m.cfg.collector.clone() } else { self.m.cfg.staker.clone() };
+        let mut prev_channel = false;
         let (native_sender, channel, genuine): (String, String, bool) = match mode {
             Deliver::Exact | Deliver::Short(_) | Deliver::Long(_) => (role_native.to_string(), ch.clone(), true),
-            Deliver::OtherChannel => (role_native.to_string(), self.other_channel(1000), false),
+            Deliver::OtherChannel => {
+                // either a channel never configured, or (if the configuration has moved) the channel that was
+                // configured before: its hook accounts were genuine once and are impostors now
+                let previous: Vec<String> = self.w.st.channels.keys().filter(|c| **c != self.m.cfg.channel).cloned().collect();
+                if !previous.is_empty() && amount % 2 == 0 {
+                    self.stats.probe("impostor_over_previously_configured_channel");
+                    prev_channel = true;
+                    (role_native.to_string(), previous[(amount / 2 % previous.len() as u128) as usize].clone(), false)
+                } else {
+                    (role_native.to_string(), self.other_channel(1000), false)
+                }
+            }
             Deliver::OtherAccount => (self.a.nothers[(amount % 3) as usize].clone(), ch.clone(), false),
             Deliver::RoleSwap => {
                 if other_role == role_native {
@@ -990,6 +1019,10 @@ impl Engine {
         self.w.st.native.credit(&native_sender, &nd, topup);
         self.w.cur_origin = origin;
         let id = self.w.native_send_hook(&native_sender, &s, amount, msg, &channel).ok()?;
+        if prev_channel {
+            // the staked asset arriving over the formerly configured channel is the same voucher the contract knows
+            self.w.st.inpackets[id].denom_on_dest = self.w.setup.ibc_denom.clone();
+        }
         let r = self.w.relay_inbound(id, false);
         self.w.cur_origin = Origin::Other;
         let r = self.after_tx(r?);
@@ -1071,6 +1104,7 @@ impl Engine {
             } else if !genuine {
                 self.v("C08", "receive_unstaked_staker_only", format!("ReceiveUnstakedTokens from {} accepted", acct));
                 self.v("C09", "impostor_refused", format!("ReceiveUnstakedTokens accepted from {} ({:?})", acct, mode));
+                self.v("C06", "received_only_from_the_staker", format!("batch {} became Received through a payment by {} ({:?}), not by the authenticated staker", id, acct, mode));
             } else {
                 self.v("C06", "receive_only_submitted_and_due", format!("batch {} (status {}) accepted delivery at now={} due={}", id, mb.status, now, mb.due));
                 if mb.status == 2 {
@@ -1128,15 +1162,16 @@ impl Engine {
             }
             return;
         }
+        // observational: the model below follows what was executed
         if self.m.halted {
-            self.v("C10", "halted_refuses_rewards", "ReceiveRewards succeeded while halted".into());
+            self.vo("C10", "halted_refuses_rewards", "ReceiveRewards succeeded while halted".into());
         } else if !genuine {
-            self.v("C08", "receive_rewards_collector_only", format!("ReceiveRewards from {} accepted", acct));
-            self.v("C09", "impostor_refused", format!("ReceiveRewards accepted from {} ({:?})", acct, mode));
+            self.vo("C08", "receive_rewards_collector_only", format!("ReceiveRewards from {} accepted", acct));
+            self.vo("C09", "impostor_refused", format!("ReceiveRewards accepted from {} ({:?})", acct, mode));
         } else if l == 0 {
-            self.v("C11", "rewards_refused_without_lst", "ReceiveRewards succeeded with no LST in existence".into());
+            self.vo("C11", "rewards_refused_without_lst", "ReceiveRewards succeeded with no LST in existence".into());
         } else if fee > amount {
-            self.v("C11", "fee_never_exceeds_reward", format!("reward {} accepted with fee rate {}", amount, self.m.cfg.fee_rate));
+            self.vo("C11", "fee_never_exceeds_reward", format!("reward {} accepted with fee rate {}", amount, self.m.cfg.fee_rate));
         }
         let fee = fee.min(amount);
         let s = self.s_addr();
